@@ -1157,7 +1157,7 @@ def m_into_bytes(I, st, info, args, depth):
 # opaque, never panicking (SAFE table): return an opaque value / unit
 SAFE_UNIT = (r"^digest::Update::update$|^digest::mac::Mac::update$|^digest::digest::Digest::update$|^cipher::stream::StreamCipher::apply_keystream$|^zeroize::Zeroize::zeroize$|"
              r"^core::mem::drop$")
-SAFE_OPAQUE = (r"^cipher::common::NewCipher::new$|^crypto_common::KeyIvInit::new$|^ring::hkdf::Salt::new$|^ring::hkdf::Salt::extract$|^ring::signature::UnparsedPublicKey::<B>::new$|"
+SAFE_OPAQUE = (r"^digest::digest::Digest::(new|new_with_prefix|chain_update)$|^cipher::common::NewCipher::new$|^crypto_common::KeyIvInit::new$|^ring::hkdf::Salt::new$|^ring::hkdf::Salt::extract$|^ring::signature::UnparsedPublicKey::<B>::new$|"
                r"^core::default::Default::default$|^ring::rand::SystemRandom::new$|^serde_json::value::Value::to_string$|^time::offset_date_time::OffsetDateTime::to_string$")
 
 
@@ -1283,7 +1283,7 @@ SAFE_STD = (r"^core::str::<impl str>::(bytes|chars|char_indices|trim|trim_start|
             r"^alloc::str::<impl str>::(to_lowercase|to_uppercase|repeat|replace|to_ascii_lowercase|to_ascii_uppercase)$|"
             r"^core::iter::traits::iterator::Iterator::(zip|map|filter|filter_map|enumerate|rev|skip|take|chain|cloned|copied|peekable|count|all|any|nth|last|position|sum|min|max|find|find_map|for_each|flat_map|flatten|take_while|skip_while|eq|cmp|by_ref|size_hint|map_while|inspect|fuse|step_by)$|"
             r"^core::iter::traits::double_ended::DoubleEndedIterator::(next_back|rev|rfold|rfind|nth_back)$|"
-            r"^core::slice::<impl \[T\]>::(get|first|last|iter_mut|starts_with|ends_with|chunks|chunks_exact|chunks_exact_mut|windows|split_first|split_last|to_owned|concat|is_sorted|binary_search|split_at_checked|get_mut|fill|reverse|as_ptr)$|"
+            r"^core::slice::<impl \[T\]>::(iter_mut|starts_with|ends_with|chunks|chunks_exact|chunks_exact_mut|windows|split_first|split_last|to_owned|concat|is_sorted|binary_search|get_mut|fill|reverse|as_ptr)$|"
             r"^alloc::vec::Vec::<T, A>::(get|first|last|clear|truncate|reserve|capacity|pop|iter|as_ptr|shrink_to_fit|dedup|retain|append|is_empty)$|"
             r"^alloc::string::String::(push_str|push|clear|capacity|with_capacity|from_utf8_lossy|truncate|pop|reserve)$|^core::char::methods::<impl char>::|^core::num::<impl u8>::(is_ascii|to_ascii|eq_ignore)|"
             r"^core::option::Option::<T>::(and_then|or|or_else|map_or|map_or_else|zip|and|xor|get_or_insert_with|insert|replace|iter|is_some_and|inspect|flatten|ok_or)$|"
@@ -1310,3 +1310,48 @@ def m_safe_std(I, st, info, args, depth):
                         return [(s3, kind, val)]
     name = info["tdef"].split("::")[-1]
     return ret(st, Sym("%s@%d" % (name, info["ln"])))
+
+
+@model(r"^core::slice::<impl \[T\]>::split_at_checked$")
+def m_split_at_checked(I, st, info, args, depth):
+    s_ = seq_of(I, st, args[0])
+    mid = I.resolve(st, args[1])
+    out = []
+    for s2, t in fork_bool(I, st, I.compare(st, "Le", mid, s_.length)):
+        if t:
+            out.append((s2, "return", some(Struct("(tuple)", None, {"0": Seq(s_.name + "[..%r]" % mid, mid, kind="bytes"), "1": Seq(s_.name + "[%r..]" % mid, s_.length.sub(mid), kind="bytes")}))))
+        else:
+            out.append((s2, "return", none()))
+    return out
+
+
+@model(r"^core::slice::<impl \[T\]>::(get|first|last)$")
+def m_slice_get(I, st, info, args, depth):
+    s_ = seq_of(I, st, args[0])
+    op = info["tdef"].split("::")[-1]
+    if op == "get" and len(args) > 1:
+        idx = I.resolve(st, args[1])
+        rk, a, b = range_parts(I, st, idx)
+        L = s_.length
+        if rk is None and isinstance(idx, Aff):
+            out = []
+            for s2, t in fork_bool(I, st, I.compare(st, "Lt", idx, L)):
+                if t:
+                    el = I.project(s2, s_, idx.const) if idx.is_const() else Sym("%s[%r]" % (s_.name, idx))
+                    out.append((s2, "return", some(Ptr(s2.new_cell(el), ()))))
+                else:
+                    out.append((s2, "return", none()))
+            return out
+        if rk in ("RangeTo", "Range", "RangeFrom"):
+            a = I.resolve(st, a) if a is not None and rk != "RangeTo" else Aff(0)
+            b = I.resolve(st, b) if b is not None and rk != "RangeFrom" else L
+            if isinstance(a, Aff) and isinstance(b, Aff):
+                out = []
+                for s2, t1 in fork_bool(I, st, I.compare(st, "Le", a, b)):
+                    if not t1:
+                        out.append((s2, "return", none()))
+                        continue
+                    for s3, t2 in fork_bool(I, s2, I.compare(s2, "Le", b, L)):
+                        out.append((s3, "return", some(Seq("%s[%r..%r]" % (s_.name, a, b), b.sub(a), kind="bytes")) if t2 else none()))
+                return out
+    return ret(st, Sym("%s@%d" % (op, info["ln"]), attrs={"adt": "core::option::Option"}))
